@@ -1,9 +1,296 @@
 import Driver.Proto
+import PolyVerif.Model.Solids
+import PolyVerif.Model.SolidsOracle
+import PolyVerif.Gen.CubeTable
 
+/-
+  C18 driver.  Request lines (tokens blank-separated, ints decimal, float64 as 16 hex digits, lists
+  length-prefixed `n x1 … xn`):
+
+    <kind> <params>  ::=  sphere R C | sphereu R C | hemi R C | cyl S noTop noBottom | cubew | cubeq
+    <scalars>        ::=  radius (sphere, sphereu, hemi) | radius height (cyl) | w h d (cubew, cubeq)
+
+  model lines (answer computed from `PolyVerif.Solids`):
+    c18.tris.<kind> <params>                  → `panic` | `n i0 i1 …`
+    c18.nv.<kind> <params>                    → number of vertices
+    c18.pos.<kind> <params> <scalars>         → `n x0 y0 z0 …`
+    c18.nrm.<kind> <params> <scalars>         → `n x0 y0 z0 …`      (sphere, cyl both caps, cubew, cubeq)
+    c18.merge.<kind> <params>                 → `n c0 c1 …`  class representative of every vertex under the model's merge map
+  oracle lines (args carry the implementation's mesh; answer true/false):
+    c18.holds.closed_mod_merge <kind> <params> <idx>
+    c18.holds.closed_by_position <classes> <idx>
+    c18.holds.outward <kind> <params> <scalars> <pos> <idx>
+    c18.holds.volume <kind> <params> <scalars> <pos> <idx>
+    c18.holds.normals_outward <kind> <params> <pos> <nrm> <idx>
+-/
 namespace Driver.C18
+open PolyVerif PolyVerif.Solids PolyVerif.SolidsOracle
 
-/-- one request -> one answer line; `none` = unknown op / malformed -/
-def handle (_op : String) (_args : List String) : Option String := none
+inductive Kind
+  | sphere (r c : Nat)
+  | sphereu (r c : Nat)
+  | hemi (r c : Nat)
+  | cyl (s : Nat) (noTop noBottom : Bool)
+  | cubew
+  | cubeq
+
+/-! ### cursor-based parsing over the token array -/
+
+abbrev Toks := Array String
+
+def rdNat (a : Toks) (i : Nat) : Option (Nat × Nat) := do
+  let s ← a[i]?
+  let n ← s.toNat?
+  pure (n, i + 1)
+
+def rdBool (a : Toks) (i : Nat) : Option (Bool × Nat) := do
+  let (n, i) ← rdNat a i
+  if n = 0 then pure (false, i) else if n = 1 then pure (true, i) else none
+
+def rdFloat (a : Toks) (i : Nat) : Option (Float × Nat) := do
+  let s ← a[i]?
+  let f ← hexF? s
+  pure (f, i + 1)
+
+def rdNats (a : Toks) (i : Nat) : Option (Array Nat × Nat) := do
+  let (n, i) ← rdNat a i
+  if i + n > a.size then none
+  let mut out : Array Nat := Array.mkEmpty n
+  for k in [i:i + n] do
+    let v ← (a.getD k "").toNat?
+    out := out.push v
+  pure (out, i + n)
+
+def rdFloats (a : Toks) (i : Nat) : Option (Array Float × Nat) := do
+  let (n, i) ← rdNat a i
+  if i + n > a.size then none
+  let mut out : Array Float := Array.mkEmpty n
+  for k in [i:i + n] do
+    let v ← hexF? (a.getD k "")
+    out := out.push v
+  pure (out, i + n)
+
+def rdKind (name : String) (a : Toks) (i : Nat) : Option (Kind × Nat) :=
+  match name with
+  | "sphere" => do let (r, i) ← rdNat a i; let (c, i) ← rdNat a i; pure (.sphere r c, i)
+  | "sphereu" => do let (r, i) ← rdNat a i; let (c, i) ← rdNat a i; pure (.sphereu r c, i)
+  | "hemi" => do let (r, i) ← rdNat a i; let (c, i) ← rdNat a i; pure (.hemi r c, i)
+  | "cyl" => do
+      let (s, i) ← rdNat a i; let (nt, i) ← rdBool a i; let (nb, i) ← rdBool a i
+      pure (.cyl s nt nb, i)
+  | "cubew" => pure (.cubew, i)
+  | "cubeq" => pure (.cubeq, i)
+  | _ => none
+
+/-- kind given as the first argument token -/
+def rdKindArg (a : Toks) (i : Nat) : Option (Kind × Nat) := do
+  let s ← a[i]?
+  rdKind s a (i + 1)
+
+/-- scalars: radius | radius height | w h d -/
+def rdScalars (k : Kind) (a : Toks) (i : Nat) : Option (Array Float × Nat) :=
+  match k with
+  | .sphere .. | .sphereu .. | .hemi .. => do let (r, i) ← rdFloat a i; pure (#[r], i)
+  | .cyl .. => do let (r, i) ← rdFloat a i; let (h, i) ← rdFloat a i; pure (#[r, h], i)
+  | .cubew | .cubeq => do
+      let (w, i) ← rdFloat a i; let (h, i) ← rdFloat a i; let (d, i) ← rdFloat a i; pure (#[w, h, d], i)
+
+/-! ### the model, per kind -/
+
+/-- does the constructor return (no panic)?  the boxes never reject; the cylinder rejects through `Circle.ToMesh`
+    (`SolidsOracle.cylinderAdmissible`, not part of `Solids.lean` yet) -/
+def admissible : Kind → Bool
+  | .sphere r c | .sphereu r c | .hemi r c => uvAdmissible r c
+  | .cyl s nt nb => cylinderAdmissible s nt nb
+  | _ => true
+
+def modelFlat : Kind → List Nat
+  | .sphere r c => flat (uvSphereTris r c)
+  | .sphereu r c => flat (uvSphereUnweldedTris r c)
+  | .hemi r c => flat (hemisphereTris r c)
+  | .cyl s nt nb => flat (cylinderTris s nt nb)
+  | .cubew => PolyVerif.Gen.CubeTable.cubeVertIndices
+  | .cubeq => flat cubeQuadsTris
+
+def modelNV : Kind → Nat
+  | .sphere r c => uvSphereNV r c
+  | .sphereu r c => uvUnweldedNV r c
+  | .hemi r c => uvSphereNV r c
+  | .cyl s nt nb => cylinderNV s nt nb
+  | .cubew => 8
+  | .cubeq => cubeQuadsNV
+
+/-- positions at `Float`; `none` where the model has no position function (pipes: a missing cap) -/
+def modelPos (k : Kind) (sc : Array Float) : Option (Nat → V3 Float) :=
+  match k with
+  | .sphere r c => some (uvSpherePos (sc.getD 0 nan) r c)
+  | .sphereu r c => some (uvUnweldedPos (sc.getD 0 nan) r c)
+  | .hemi r c => some (hemispherePos (sc.getD 0 nan) r c)
+  | .cyl s false false => some (cylinderPos (sc.getD 0 nan) (sc.getD 1 nan) s)
+  | .cyl .. => none
+  | .cubew => some (cubeWeldedPos (sc.getD 0 nan) (sc.getD 1 nan) (sc.getD 2 nan))
+  | .cubeq => some (cubeQuadsPos (sc.getD 0 nan) (sc.getD 1 nan) (sc.getD 2 nan))
+
+def modelNrm (k : Kind) (sc : Array Float) : Option (Nat → V3 Float) :=
+  match k with
+  | .sphere r c => some (uvSphereNormal (sc.getD 0 nan) r c)
+  | .cyl s false false => some (cylinderNormal s)
+  | .cubew => some (cubeWeldedNormal (sc.getD 0 nan) (sc.getD 1 nan) (sc.getD 2 nan))
+  | .cubeq => some cubeQuadsNormal
+  | _ => none
+
+/-- the model's merge map as `Nat` labels of the vertices `0..nv-1`, with a bound on the labels;
+    `none`: no merge map in the model (pipes) -/
+def modelLabels (k : Kind) : Option (Array Nat × Nat) :=
+  let nv := modelNV k
+  let ofNat (f : Nat → Nat) : Array Nat × Nat :=
+    let ls := ((List.range nv).map f).toArray
+    (ls, ls.foldl (fun m x => max m (x + 1)) 0)
+  match k with
+  | .sphere r c | .hemi r c => some (lpLabels nv (uvDec r c))
+  | .sphereu r c => some (ofNat (uvUnweldedSrc r c))
+  | .cyl s false false => some (lpLabels nv (cylinderPt s))
+  | .cyl .. => none
+  | .cubew => some (ofNat id)
+  | .cubeq => some (ofNat cubeQuadsPt)
+
+/-- the literal predicate of the theorems: `ClosedMod pt (unflat idx)` with the model's merge map.
+    Welded meshes (sphere, hemisphere, welded box) are closed on their raw vertex ids. -/
+def closedLiteral (k : Kind) (idx : List Nat) : Option Bool :=
+  match k with
+  | .sphere .. | .hemi .. | .cubew => some (decide (ClosedMod id (unflat idx)))
+  | .sphereu r c => some (decide (ClosedMod (uvUnweldedSrc r c) (unflat idx)))
+  | .cyl s false false => some (decide (ClosedMod (cylinderPt s) (unflat idx)))
+  | .cyl .. => none
+  | .cubeq => some (decide (ClosedMod cubeQuadsPt (unflat idx)))
+
+/-- labels for the fast path of the same predicate -/
+def closedLabels (k : Kind) : Option (Array Nat × Nat) :=
+  match k with
+  | .sphere .. | .hemi .. | .cubew => let nv := modelNV k; some ((List.range nv).toArray, nv)
+  | _ => modelLabels k
+
+/-- size limit (directed edges = index count) of the literal quadratic predicate -/
+def literalLimit : Nat := 1200
+
+/-- `ClosedMod (fun v => labels[v]) (unflat idx)`: literal predicate up to `literalLimit` edges AND the sort-based
+    check (both must hold, so a disagreement answers `false`); only the sort-based check above -/
+def closedByLabels (labels : Array Nat) (bound : Nat) (idx : Array Nat) (literal : Option Bool) : Bool :=
+  if !(idx.all (· < labels.size)) then false else
+  let fast := closedFastArr bound (idx.map fun v => labels.getD v bound)
+  if idx.size ≤ literalLimit then
+    match literal with
+    | some l => l && fast
+    | none => false
+  else fast
+
+def natsStr (xs : List Nat) : String :=
+  " ".intercalate (toString xs.length :: xs.map toString)
+
+def v3sStr (nv : Nat) (f : Nat → V3 Float) : String :=
+  let fs := (List.range nv).flatMap fun v => let p := f v; [p.x, p.y, p.z]
+  " ".intercalate (toString fs.length :: fs.map fHex)
+
+def ctrOf (k : Kind) (sc : Array Float) : V3 Float :=
+  match k with
+  | .hemi .. => ⟨0.0, sc.getD 0 nan / 2.0, 0.0⟩
+  | _ => ⟨0.0, 0.0, 0.0⟩
+
+/-- (Vpoly, Vanalytic, relative deficit bound) -/
+def volumeSpec (k : Kind) (sc : Array Float) : Option (Float × Float × Float) :=
+  match k with
+  | .sphere r c | .sphereu r c => some (sphereVpoly (sc.getD 0 nan) r c, sphereVana (sc.getD 0 nan), uvBound 10.0 r c)
+  | .hemi r c => some (hemiVpoly (sc.getD 0 nan) r c, hemiVana (sc.getD 0 nan), uvBound 10.0 r c)
+  | .cyl s false false =>
+      some (cylVpoly (sc.getD 0 nan) (sc.getD 1 nan) s, cylVana (sc.getD 0 nan) (sc.getD 1 nan),
+            7.0 / (Float.ofNat s * Float.ofNat s))
+  | .cyl .. => none
+  | .cubew | .cubeq =>
+      let v := sc.getD 0 nan * sc.getD 1 nan * sc.getD 2 nan
+      some (v, v, 1e-12)
+
+def done (a : Toks) (i : Nat) : Option Unit := if i = a.size then some () else none
+
+/-- one request → one answer line; `none` = unknown op / malformed -/
+def handle (op : String) (args : List String) : Option String := do
+  let a : Toks := args.toArray
+  match op.splitOn "." with
+  | ["c18", "tris", kn] => do
+      let (k, i) ← rdKind kn a 0
+      done a i
+      if admissible k then pure (natsStr (modelFlat k)) else pure "panic"
+  | ["c18", "nv", kn] => do
+      let (k, i) ← rdKind kn a 0
+      done a i
+      if admissible k then pure (toString (modelNV k)) else pure "panic"
+  | ["c18", "pos", kn] => do
+      let (k, i) ← rdKind kn a 0
+      let (sc, i) ← rdScalars k a i
+      done a i
+      if !admissible k then pure "panic" else
+      let f ← modelPos k sc
+      pure (v3sStr (modelNV k) f)
+  | ["c18", "nrm", kn] => do
+      let (k, i) ← rdKind kn a 0
+      let (sc, i) ← rdScalars k a i
+      done a i
+      if !admissible k then pure "panic" else
+      let f ← modelNrm k sc
+      pure (v3sStr (modelNV k) f)
+  | ["c18", "merge", kn] => do
+      let (k, i) ← rdKind kn a 0
+      done a i
+      if !admissible k then pure "panic" else
+      let (ls, b) ← modelLabels k
+      pure (natsStr (classReps ls b).toList)
+  | ["c18", "holds", "closed_mod_merge"] => do
+      let (k, i) ← rdKindArg a 0
+      let (idx, i) ← rdNats a i
+      done a i
+      if !admissible k then pure "false" else
+      let (ls, b) ← closedLabels k
+      let lit := if idx.size ≤ literalLimit then closedLiteral k idx.toList else none
+      pure (boolStr (closedByLabels ls b idx lit))
+  | ["c18", "holds", "closed_by_position"] => do
+      let (cls, i) ← rdNats a 0
+      let (idx, i) ← rdNats a i
+      done a i
+      let lit := if idx.size ≤ literalLimit then
+          some (idx.all (· < cls.size) && decide (ClosedMod (fun v => cls.getD v cls.size) (unflat idx.toList)))
+        else none
+      pure (boolStr (closedByLabels cls cls.size idx lit))
+  | ["c18", "holds", "outward"] => do
+      let (k, i) ← rdKindArg a 0
+      let (sc, i) ← rdScalars k a i
+      let (pos, i) ← rdFloats a i
+      let (idx, i) ← rdNats a i
+      done a i
+      if !admissible k then pure "false" else
+      let ts := trisOfArray idx
+      let p := posOf pos
+      pure (boolStr (idx.size % 3 == 0 && outwardAtB p (ctrOf k sc) ts && decide (0.0 < volume6 p ts)))
+  | ["c18", "holds", "volume"] => do
+      let (k, i) ← rdKindArg a 0
+      let (sc, i) ← rdScalars k a i
+      let (pos, i) ← rdFloats a i
+      let (idx, i) ← rdNats a i
+      done a i
+      if !admissible k then pure "false" else
+      let (vpoly, vana, bound) ← volumeSpec k sc
+      let ts := trisOfArray idx
+      let v := volume6 (posOf pos) ts / 6.0
+      let reltol : Float := if idx.size > 30000 then 1e-7 else 1e-9
+      pure (boolStr (idx.size % 3 == 0 && volumeOK v vpoly vana bound reltol))
+  | ["c18", "holds", "normals_outward"] => do
+      let (k, i) ← rdKindArg a 0
+      let (pos, i) ← rdFloats a i
+      let (nrm, i) ← rdFloats a i
+      let (idx, i) ← rdNats a i
+      done a i
+      if !admissible k then pure "false" else
+      pure (boolStr (idx.size % 3 == 0 && pos.size == nrm.size &&
+                     normalsOutwardB (posOf pos) (posOf nrm) (trisOfArray idx)))
+  | _ => none
 
 end Driver.C18
 
